@@ -187,3 +187,48 @@ pub fn shrink_text(start: &str, budget: usize, test: &mut dyn FnMut(&str) -> boo
     }
     (cur.iter().collect(), stats)
 }
+
+/// Candidate simplifications of a text (for `Prop::shrink_direct` of text properties):
+/// chunk deletions from large to small, then character simplifications.
+pub fn text_candidates(s: &str) -> Vec<String> {
+    let cs: Vec<char> = s.chars().collect();
+    let n = cs.len();
+    let mut out = vec![];
+    let mut k = n / 2;
+    while k >= 1 {
+        let mut pos = 0;
+        while pos + k <= n {
+            let mut c = cs.clone();
+            c.drain(pos..pos + k);
+            out.push(c.iter().collect());
+            pos += k.max(1);
+        }
+        if k == 1 {
+            break;
+        }
+        k /= 2;
+    }
+    if n <= 400 {
+        // single-char deletions at every position were covered by k == 1 above; now simplify chars
+        for i in 0..n {
+            let c = cs[i];
+            let repl = if !c.is_ascii() {
+                Some('a')
+            } else if c.is_ascii_alphabetic() && c != 'a' {
+                Some('a')
+            } else if c.is_ascii_digit() && c != '0' {
+                Some('0')
+            } else if c == '\n' || c == '\t' || c == '\r' {
+                Some(' ')
+            } else {
+                None
+            };
+            if let Some(r) = repl {
+                let mut c2 = cs.clone();
+                c2[i] = r;
+                out.push(c2.iter().collect());
+            }
+        }
+    }
+    out
+}
